@@ -1,11 +1,12 @@
 /-
 Layer P (processes) — opening the same database file from several processes (C13).
 
-The steps follow `OpenOptions::open` / `init_file` / `DBInner::open` (`db.rs:138-156, 246-273,
-348-390`): check whether the file exists; if not, create it (exclusively), allocate, write the four
-initial pages, sync; then — in both cases — take the exclusive advisory lock (blocking), map the file,
-read the header.  The lock is held until the handle is closed.  Advisory-lock semantics (one holder at a
-time, same host) are an assumption.
+The steps follow `OpenOptions::open` / `DBInner::open` / `init_file` after the repair of D12: open the path
+(creating an empty file if there is none), take the exclusive advisory lock (blocking), initialise the
+file if it is still empty (allocate, write the four initial pages, sync), map it, read the header.  The
+lock is held until the handle is closed.  `stepPinned` is the order of the pinned release (exists-check,
+create + initialise, only then the lock), kept for the witness of the defect.  Advisory-lock semantics
+(one holder at a time, same host) are an assumption.
 -/
 namespace Jamm
 
@@ -47,6 +48,25 @@ def ProcSys.step (s : ProcSys) (i : Nat) : ProcSys :=
     let set (p : PPhase) (s : ProcSys) : ProcSys := { s with procs := s.procs.set i p }
     match ph with
     | .start =>
+      if s.file = .missing then set .opened { s with file := .created }     -- open with create: an empty file
+      else set .opened s                                                     -- open the existing file
+    | .creating => set .opened s                                             -- (phase of the pinned order only)
+    | .opened => set .locked { s with lock := some i }
+    | .locked =>
+      if s.file = .ready then set (.inside s.commits) s                      -- map, read the header
+      else set .locked { s with file := .ready }                             -- still empty: initialise it, under the lock
+    | .inside n => set .closed { s with lock := none, commits := s.commits + 1 }  -- commit a marker, close
+    | .closed => s
+    | .failed => s
+
+/-- the pinned release: a missing file is created and initialised *before* the lock is taken -/
+def ProcSys.stepPinned (s : ProcSys) (i : Nat) : ProcSys :=
+  match s.procs[i]? with
+  | none => s
+  | some ph =>
+    let set (p : PPhase) (s : ProcSys) : ProcSys := { s with procs := s.procs.set i p }
+    match ph with
+    | .start =>
       if s.file = .missing then set .creating { s with file := .created }   -- exists? no: create_new
       else set .opened s                                                     -- exists? yes: open
     | .creating => set .opened { s with file := .ready }                     -- allocate, write, sync
@@ -54,9 +74,13 @@ def ProcSys.step (s : ProcSys) (i : Nat) : ProcSys :=
     | .locked =>
       if s.file = .ready then set (.inside s.commits) s
       else set .failed { s with lock := none }                               -- no valid header: panic, handle dropped
-    | .inside n => set .closed { s with lock := none, commits := s.commits + 1 }  -- commit a marker, close
+    | .inside n => set .closed { s with lock := none, commits := s.commits + 1 }
     | .closed => s
     | .failed => s
+
+def ProcSys.runPinned (s : ProcSys) : List Nat → ProcSys
+  | [] => s
+  | i :: rest => if s.enabled i then (s.stepPinned i).runPinned rest else s.runPinned rest
 
 def ProcSys.run (s : ProcSys) : List Nat → ProcSys
   | [] => s
